@@ -80,7 +80,12 @@ func cmdVC(args []string) int {
 			bad++
 		}
 		if *verbose || o.Res.Verdict != Unsat {
-			fmt.Printf("%-8s %-70s %s %.2fs %s\n", o.Res.Verdict, o.Name, o.Res.Solver, o.Res.Secs, o.Note)
+			pos := ""
+			if o.Pos.IsValid() {
+				pp := V.P.Fset.Position(o.Pos)
+				pos = fmt.Sprintf("%s:%d", pp.Filename[strings.LastIndex(pp.Filename, "/")+1:], pp.Line)
+			}
+			fmt.Printf("%-8s %-70s %s %.2fs %s %s\n", o.Res.Verdict, o.Name, o.Res.Solver, o.Res.Secs, o.Note, pos)
 			if o.Res.Verdict != Unsat && *dump {
 				f := "/tmp/bxv-" + sanitizeFile(o.Name) + ".smt2"
 				os.WriteFile(f, []byte(o.Text), 0o644)
